@@ -19,21 +19,21 @@ Holders == <<[h |-> "leaf", ctx |-> <<"a", "b", "c">>, npc |-> "no"],
              [h |-> "npchild", ctx |-> <<"a", "b">>, npc |-> "npchild"]>>
 NInvalid(e, ctx) == LET P == PathsOf(e)  m == MeaningOutcome(e, ctx) IN
                     Cardinality({i \in 1..m.ntested : ~ValidPath(P[i], ctx)})
+UV(u) == <<IF u.error THEN 1 ELSE 0, u.compilerError, u.configdError, u.badFields, u.invalidPath, u.onNPCont, u.onNPContNPChild>>
 UseOut(e) == [i \in 1..(2 * Len(Holders)) |->
                LET H == Holders[((i - 1) \div 2) + 1]  stmt == IF i % 2 = 1 THEN "when" ELSE "must" IN
                [h |-> H.h, stmt |-> stmt,
-                intent |-> UseOutcome(stmt, TRUE, TRUE, H.npc, NInvalid(e, H.ctx)),
-                fork |-> UseOutcome(stmt, TRUE, ~ForkRejects(e), H.npc, 0),      \* F2 and F3
-                f3 |-> UseOutcome(stmt, TRUE, TRUE, H.npc, 0)]]                   \* F3 alone (the grammar accepts, nothing is validated)
+                i |-> UV(UseOutcome(stmt, TRUE, TRUE, H.npc, NInvalid(e, H.ctx))),          \* the meaning
+                f |-> UV(UseOutcome(stmt, TRUE, ~ForkRejects(e), H.npc, 0)),               \* F2 and F3
+                g |-> UV(UseOutcome(stmt, TRUE, TRUE, H.npc, 0))]]                          \* F3 alone (the grammar accepts, nothing is validated)
 Vec(e, f) ==
   LET pf == PathEvalCompileFork(e) IN
   [fam |-> f,
    expr |-> Render(e, "min", 0),
    variants |-> <<Render(e, "full", 0), Render(e, "min", 2)>>,
    prog |-> PathEvalCompile(e), progFork |-> pf, rejects |-> ForkRejects(e), hasPreds |-> HasPreds(e),
-   paths |-> PathsOf(e),
-   behCur |-> BehOut(pf, "cur"), behCurI |-> BehOut(PathEvalCompile(e), "cur"), behMach |-> BehOut(pf, "mach"),
-   forkCur |-> ForkOutcome(e, "cur"), forkMach |-> ForkOutcome(e, "mach"),
+   behCur |-> BehOut(pf, "cur"), behCurI |-> BehOut(PathEvalCompile(e), "cur"),
+   forkMach |-> ForkOutcome(e, "mach"),
    meanB |-> MeaningOutcome(e, <<"a", "b">>), meanC |-> MeaningOutcome(e, <<"a", "b", "c">>),
    use |-> UseOut(e)]
 GInit == fam \in Fams /\ chunk \in 0..(NChunks - 1) /\ done = FALSE
